@@ -141,6 +141,8 @@ def _seed_inputs() -> list[bytes]:
         perm(0, 1, 3, [19, 19], [20, 18], [3, 4, 5, 6, 1, 0, 2, 9]),
         perm(1, 0, 7, [18, 18], [19, 18], [1, 0, 1, 0, 1, 0, 1, 0]),
         perm(1, 0, 64, [2, 1, 0], [2, 1, 1], list(range(1, 19))),
+        perm(0, 0, 5, [36, 2], [19, 19], [3, 4, 5, 6, 1, 0, 2, 9]),
+        perm(1, 1, 9, [20, 20], [21, 20], [10, 0, 8, 0, 9, 0, 3, 0]),
         perm(0, 0, 1, [1, 1, 1, 1, 1, 1], [1, 1, 1, 1, 1, 1], [(7 * i + 3) % 24 for i in range(72)]),
         perm(0, 0, 2, [3, 0, 2, 1, 0], [2, 2, 2], [(5 * i + 1) % 24 for i in range(30)]),
         bytes([2, 0, 3, 1, 2, 3, 4, 5]),                               # torontonian d=1
